@@ -533,6 +533,17 @@ def analyse(make_template, inputs, cooked, call, max_candidates=32):
     """full E3 pipeline for one scenario -> result dict"""
     t0 = time.time()
     traces, solo = run_solo(make_template, inputs, cooked, call)
+    # state OUTSIDE the template object (module-level caches, memoised helpers): every thread body runs alone on a FRESH template,
+    # so its result must not depend on which other render happened earlier in this process
+    rev = dict(reversed(list(inputs.items())))
+    _tr2, solo2 = run_solo(make_template, rev, cooked, call)
+    _tr3, solo3 = run_solo(make_template, inputs, cooked, call)
+    od = {k: (solo[k], solo2.get(k), solo3.get(k)) for k in solo if solo2.get(k) != solo[k] or solo3.get(k) != solo[k]}
+    if od:
+        return {'events': sum(len(t) for t in traces.values()), 'writes': 0, 'solo': {k: repr(v)[:80] for k, v in solo.items()}, 'queries': 0, 'solver_s': 0.0, 'benign': [],
+                'candidates': 0, 'verdict': 'violation', 'schedule': [], 'order_dependence': True,
+                'message': 'the result of a render on a fresh template object depends on which renders ran before it in this process (state shared outside the template)',
+                'differs': {k: tuple(repr(x)[:100] for x in v) for k, v in od.items()}, 'wall_s': round(time.time() - t0, 2)}
     nev = sum(len(t) for t in traces.values())
     nwr = sum(1 for t in traces.values() for e in t if e[0] == 'W')
     out = {'events': nev, 'writes': nwr, 'solo': {k: repr(v)[:80] for k, v in solo.items()}, 'queries': 0, 'solver_s': 0.0,
